@@ -65,8 +65,17 @@ def run_history(ctx, program, history, tag="random"):
         for label, cache in G.caches:
             cache_owner[id(cache)] = label
 
+    def unshadowed_reads(did):
+        """may-read set of the dataset definition with its own pre-sets taken out (they are applied to the
+        options instead, see `effective`)."""
+        stripped = copy.deepcopy(program)
+        stripped["datasets"][did].pop("options", None)
+        stripped["datasets"][did].pop("default_options", None)
+        return Ref(stripped).may_read({"k": "ds", "id": did})
+
     def obj_spec(obj):
-        """(group id, may-read set) for a built Dataset object."""
+        """(group id, may-read set, (P, D)) for a built Dataset object; P / D are the total forced / default
+        options of that object (declaration + with_options / with_default_options chain)."""
         did = G.dataset_ids.get(id(obj))
         if did is None:
             return None
@@ -79,12 +88,22 @@ def run_history(ctx, program, history, tag="random"):
                     mr = set()
                     for _, a in impl.get("args", []):
                         mr |= ref.may_read(a)
-                    return did, mr, ()
+                    return did, mr, ({}, {})
             return None
+        d = datasets[did]
+        P, D = copy.deepcopy(d.get("options") or {}), copy.deepcopy(d.get("default_options") or {})
         if id(obj) in G.derived_specs:
             spec = G.derived_specs[id(obj)]
-            return did, ref.may_read(spec), (repr(spec.get("P")), repr(spec.get("D")), repr(spec.get("chain")))
-        return did, ref.may_read({"k": "ds", "id": did}), ()
+            if spec.get("P"):
+                P = U.overlay(P, spec["P"])
+            if spec.get("D"):
+                D = U.overlay(D, spec["D"])
+            for which, opts in spec.get("chain") or []:
+                if which == "P":
+                    P = U.overlay(P, opts)
+                else:
+                    D = U.overlay(D, opts)
+        return did, unshadowed_reads(did), (P, D)
 
     spec_cache = {}
 
@@ -96,8 +115,12 @@ def run_history(ctx, program, history, tag="random"):
             sp = spec_cache[key]
             if sp is None:
                 return
-            gid, mr, pd = sp
-            assignments.setdefault(gid, set()).add((projection(mr, request.options), pd))
+            gid, mr, (P, D) = sp
+            # the assignment the body can depend on: the effective (mixed) options projected on what it reads;
+            # the original and every with_options / with_default_options derivative share one cache, so equal
+            # effective assignments must share one body run
+            effective = U.overlay(U.overlay(D, dict(request.options)), P)
+            assignments.setdefault(gid, set()).add(projection(mr, effective))
             evals[gid] = evals.get(gid, 0) + 1
         elif phase == "return" and kind == "cache_set":
             label = cache_owner.get(id(request.cache))
